@@ -133,6 +133,9 @@ Proof.
     rewrite peval_scale, <- (IHe _ eq_refl S). ring.
   - destruct (pnorm e) as [P1|]; [|discriminate]. injection H as <-.
     now rewrite peval_pow, <- (IHe _ eq_refl S).
+  - discriminate.
+  - discriminate.
+  - discriminate.
 Qed.
 
 (* ---------- C13_test_sound_partial ---------- *)
@@ -237,6 +240,9 @@ Proof.
     now rewrite pscale_deg, (IHe _ eq_refl A).
   - destruct (pnorm e) as [P1|] eqn:N; [|discriminate]. injection H as <-.
     apply deg0_le1. exact (pfree_deg0 (Pow e n) _ ltac:(simpl; now rewrite N) A).
+  - discriminate.
+  - discriminate.
+  - discriminate.
 Qed.
 
 (* ---------- the seeded replacement tests are refuted ---------- *)
@@ -379,6 +385,9 @@ Proof.
     destruct (IHe _ eq_refl S) as [V1 D1].
     split; [rewrite pc0_pow, <- V1; reflexivity|].
     intros i. rewrite pd0_pow, <- V1, D1. destruct n; reflexivity.
+  - discriminate.
+  - discriminate.
+  - discriminate.
 Qed.
 
 (* a degree <= 1 expansion is its own first-order Taylor polynomial at 0 *)
